@@ -111,7 +111,7 @@ def gen_ops(rng, world, n_ev, max_ops=25, allow_faults=True):
         return {'op': 'eval', 'ev': ev(), 'target': spell(a)}
 
     def op_get(a=None):
-        a = a or rng.choice(order)
+        a = a or rng.choice(order + (blanks if rng.random() < 0.3 else []))
         o = {'op': 'get', 'ev': ev(), 'target': spell(a)}
         if rng.random() < 0.08:
             o['target'] = a
@@ -254,7 +254,7 @@ def gen_case(seed, tier='quick'):
              'decoy': rng.random() < 0.25,
              'provenance': rng.choice(
                  ['compiled'] * 5 + ['extracted'] * 2 + ['restored'] * 2 +
-                 ['restored+extracted'])}
+                 ['restored+extracted', 'reused-object', 'reused-object'])}
     return {'property': ID, 'seed': seed, 'knobs': knobs, 'world': world,
             'ops': ops}
 
@@ -325,6 +325,18 @@ class History:
             return model
         self.bump(f'probe:model_{how}')
         try:
+            if how == 'reused-object':
+                # one Model object that first held another workbook (same
+                # names and formula texts, other bindings), then this one
+                sib = worlds.world_model(worlds.sibling_world(self.world))
+                sib.persist_to_json_file('/simfs/c04-sibling.json')
+                model.persist_to_json_file('/simfs/c04.json')
+                model = Model()
+                model.construct_from_json_file('/simfs/c04-sibling.json',
+                                               build_code=True)
+                model.construct_from_json_file('/simfs/c04.json',
+                                               build_code=True)
+                return model
             if 'restored' in how:
                 model.persist_to_json_file('/simfs/c04.json')
                 model = Model()
